@@ -152,9 +152,8 @@ __CPROVER_requires(hostname != NULL) __CPROVER_assigns() __CPROVER_ensures(R == 
 /* which direction currently works on tx (ghost booleans; both values are explored) */
 #define C05_IN_ATTACH(tx) (g_c05_in_same ? __CPROVER_pointer_equals((tx)->connp->in_tx, (tx)) : (tx)->connp->in_tx != (tx))
 #define C05_OUT_ATTACH(tx) (g_c05_out_same ? __CPROVER_pointer_equals((tx)->connp->out_tx, (tx)) : (tx)->connp->out_tx != (tx))
-#define C05_PUT(c) (g_c05_put ? (__CPROVER_is_fresh((c)->put_file, sizeof(htp_file_t)) && \
-        ((c)->put_file->filename == NULL || __CPROVER_is_fresh((c)->put_file->filename, sizeof(bstr)))) : (c)->put_file == NULL)
-
+/* no PUT file pending: with a put_file the cleanup path (bstr_free + free) sends CBMC into an encoding blow-up (> 240 s); teardown is C18 */
+#define C05_PUT(c) ((c)->put_file == NULL)
 /* common post: every event of this call names this transaction; nothing is delivered after a callback failed; a failed
  * callback's code is what the function returns */
 #define C05_POST_COMMON (g_hook_tx_other == 0 && g_hook_after_fail == 0 && (g_hook_failed ==> R == g_hook_rc_fail))
@@ -234,7 +233,6 @@ __CPROVER_ensures(R != HTP_OK ==> tx->connp->in_state == O(tx->connp->in_state))
 htp_status_t contract_htp_tx_state_request_complete_partial(htp_tx_t *tx)
 __CPROVER_requires(C05_TX(tx) && C05_IN_ATTACH(tx) && C05_PUT(tx->connp) && tx->request_progress != HTP_REQUEST_COMPLETE)
 __CPROVER_assigns(C05_REQ_COMPLETE_FRAME(tx))
-__CPROVER_frees(g_c05_put: tx->connp->put_file, tx->connp->put_file->filename)
 __CPROVER_ensures(RC3(R) && g_hook_tx_other == 0 && g_hook_after_fail == 0 && C05_MONO(tx))
 __CPROVER_ensures(EV_ONLY(sink, req_complete, fclr, none, none) && C05_PARTIAL_EVENTS(tx))
 __CPROVER_ensures(EV_NOT(req_complete) ==> tx->request_progress == O(tx->request_progress))
@@ -256,7 +254,7 @@ __CPROVER_requires(C05_TX(tx) && __CPROVER_pointer_equals(tx->connp->in_tx, tx) 
 /* INV_RES on entry (see above).  INV_REQ need not be assumed: the function itself is guarded by request_progress. */
 __CPROVER_requires(C05_INV_RES(tx->connp, tx))
 __CPROVER_assigns(C05_REQ_COMPLETE_FRAME(tx), __CPROVER_object_whole(tx), tx->connp->in_state, tx->connp->in_tx, tx->connp->out_tx)
-__CPROVER_frees(tx; g_c05_put: tx->connp->put_file, tx->connp->put_file->filename)
+__CPROVER_frees(tx)
 __CPROVER_ensures(RC3(R) && g_hook_tx_other == 0 && EV_ONLY(sink, req_complete, fclr, tx_complete, destroy))
 /* 1. at most once over any call history: already COMPLETE on entry => neither the end marker nor REQUEST_COMPLETE is delivered again */
 __CPROVER_ensures(O(tx->request_progress) == HTP_REQUEST_COMPLETE ==> (EV_NOT(req_complete) && EV_NOT(sink) && EV_NOT(fclr) && R == HTP_OK))
@@ -329,6 +327,37 @@ __CPROVER_requires(C05_TX(tx))
 __CPROVER_assigns(C05_GHOST_ASSIGNS, tx->flags, tx->response_status_number)
 __CPROVER_ensures(RC3(R) && C05_POST_COMMON && C05_MONO(tx))
 __CPROVER_ensures(g_seq == 1 && EV_RAN(res_line) && EV_ONLY(res_line, none, none, none, none) && g_hook_tx_last == (const void *) tx && R == g_hook_rc_last)
+;
+
+/* ---- htp_tx_state_response_headers: content-coding set-up around the RESPONSE_HEADERS hook ------------------------------------ */
+#define C05_CE_CAP 16
+void *contract_c05_table_get_c(const htp_table_t *table, const char *ckey)
+__CPROVER_requires(ckey != NULL) __CPROVER_assigns()
+__CPROVER_ensures(R == NULL || (__CPROVER_is_fresh(R, sizeof(htp_header_t)) && __CPROVER_is_fresh(((htp_header_t *) R)->value, sizeof(bstr) + C05_CE_CAP) &&
+    ((htp_header_t *) R)->value->realptr == NULL && ((htp_header_t *) R)->value->size == C05_CE_CAP && ((htp_header_t *) R)->value->len <= C05_CE_CAP));
+int contract_c05_any_cmp_c(const bstr *b, const char *c) __CPROVER_requires(b != NULL && c != NULL) __CPROVER_assigns() __CPROVER_ensures(1);
+int contract_c05_any_index_of(const void *data, size_t len, const char *cstr) __CPROVER_requires(cstr != NULL) __CPROVER_assigns() __CPROVER_ensures(1);
+int contract_c05_any_cmp_mem(const void *data1, size_t len1, const void *data2, size_t len2) __CPROVER_requires(1) __CPROVER_assigns() __CPROVER_ensures(1);
+htp_decompressor_t *contract_c05_decompressor_create(htp_connp_t *connp, enum htp_content_encoding_t format)
+__CPROVER_requires(connp != NULL) __CPROVER_assigns()
+__CPROVER_ensures(R == NULL || __CPROVER_is_fresh(R, sizeof(htp_decompressor_t)));
+/* tokenizer of the multi-valued Content-Encoding: a token is a sub-range of the input */
+int contract_c05_get_token(const unsigned char *in, size_t in_len, const char *seps, unsigned char **ret_tok_ptr, size_t *ret_tok_len)
+__CPROVER_requires(__CPROVER_w_ok(ret_tok_ptr, sizeof(*ret_tok_ptr)) && __CPROVER_w_ok(ret_tok_len, sizeof(*ret_tok_len)))
+__CPROVER_assigns(*ret_tok_ptr, *ret_tok_len)
+__CPROVER_ensures((R == 0 || R == 1) && (R == 1 ==> (*ret_tok_len <= in_len && *ret_tok_ptr == (unsigned char *) in)))
+;
+htp_status_t contract_htp_tx_state_response_headers(htp_tx_t *tx)
+__CPROVER_requires(C05_TX(tx))
+/* the layer limit bounds the tokenizer loop (library default 2; 0 = unlimited is excluded here) */
+__CPROVER_requires(tx->connp->cfg->response_decompression_layer_limit >= 1 && tx->connp->cfg->response_decompression_layer_limit <= 2)
+__CPROVER_assigns(C05_GHOST_ASSIGNS, tx->response_content_encoding, tx->response_content_encoding_processing, tx->connp->out_decompressor,
+    tx->connp->out_data_receiver_hook, tx->connp->out_current_receiver_offset)
+__CPROVER_ensures(RC3(R) && C05_POST_COMMON && C05_MONO(tx) && tx->response_progress == O(tx->response_progress))
+/* raw header data is flushed first, then RESPONSE_HEADERS exactly once; a refusal of either is returned at once; nothing else is delivered */
+__CPROVER_ensures(EV_ONLY(fclr, res_headers, none, none, none) && EV_RAN(fclr) && g_seq_fclr == 1)
+__CPROVER_ensures(g_fclr_rc != HTP_OK ? (R == g_fclr_rc && EV_NOT(res_headers) && g_seq == 1)
+                                      : (EV_RAN(res_headers) && g_seq_res_headers == 2 && g_seq == 2 && g_hook_tx_last == (const void *) tx))
 ;
 
 #define C05_RES_COMPLETE_FRAME(tx) C05_GHOST_ASSIGNS, __CPROVER_object_whole(tx), (tx)->connp->out_tx, (tx)->connp->in_tx, (tx)->connp->out_state, \
